@@ -372,6 +372,8 @@ def main(tier, replay=None):
         # generated design files (+ 2 variants each)
         stream("generated", "gen", 6000 if thorough else 250, 23 if thorough else 7)
 
+    # the smallest failing sources first
+    pending["input"].sort(key=lambda wo: len(wo[1].get("case", "")))
     for what, obj in pending["input"][:6]:
         res.violation(what, obj)
     for what, obj in pending["corr"][:4]:
